@@ -5,6 +5,7 @@ SEEDS="$1"; TIER="$2"; shift 2
 cd "$(dirname "$0")/.."
 export VERIF_EVIDENCE_DIR="${VERIF_EVIDENCE_DIR:-/tmp/dev/ev_burn}"
 mkdir -p "$VERIF_EVIDENCE_DIR"
+export VERIF_STRICT_GEN=1   # generator programming errors are harness errors during development
 for C in "$@"; do for S in $SEEDS; do
   OUT="$(VERIF_SEED=$S ./check "$C" --tier "$TIER" 2>&1)"; RC=$?
   echo "== $C seed=$S exit=$RC $(echo "$OUT" | grep '^property=' | tail -1)"
